@@ -274,12 +274,23 @@ Definition cmd_bp (items : list ctx_item) (payload : list byte) : string :=
   | PANIC _ => "PANIC" | FUEL => "FUEL"
   end.
 
+(* SecMinHour::seconds / minutes / hours *)
+Definition smh_seconds (t : sec_min_hour) : N := match t with SmhNone => 0 | SmhS s | SmhSM s _ | SmhSMH s _ _ => s end.
+Definition smh_minutes (t : sec_min_hour) : N := match t with SmhNone | SmhS _ => 0 | SmhSM _ m | SmhSMH _ m _ => m end.
+Definition smh_hours (t : sec_min_hour) : N := match t with SmhSMH _ _ h => h | _ => 0 end.
+Definition show_smh_acc (c : clock_timestamp) : string :=
+  show_N (smh_seconds (smh c)) ++ "/" ++ show_N (smh_minutes (smh c)) ++ "/" ++ show_N (smh_hours (smh c)).
+
 Definition cmd_pt (items : list ctx_item) (id : N) (payload : list byte) : string :=
   match (if (31 <? id)%N then None else sps_by_id (build_ctx items) id) with
   | None => "nosps"
   | Some sp =>
     match pic_timing_read sp payload with
-    | OK v => "ok:" ++ show_pt v
+    | OK v => "ok:" ++ show_pt v ++
+              match pt_pic_struct v with
+              | Some (_, cts) => " smh=[" ++ join "," (map show_smh_acc (opt_list cts)) ++ "]"
+              | None => ""
+              end
     | ERR e => "E:" ++ show_pterr e
     | PANIC _ => "PANIC" | FUEL => "FUEL"
     end
